@@ -335,7 +335,7 @@ class Store:
                     out.append((k, a))
                 elif a[0] == 'kdict' and a[2] is not None:
                     out.append((k, a[2]))
-                elif a[0] == 'obj' and '@' in a[1]:
+                elif (a[0] == 'obj' and '@' in a[1]) or a[0] in ('fn', 'clo', 'partial', 'lam'):
                     out.append((k, a))
         return frozenset(out)
 
@@ -533,6 +533,10 @@ class Scope:
                     self._target(it.optional_vars)
         if isinstance(n, ast.ExceptHandler) and n.name:
             self.locals.add(n.name)
+        if isinstance(n, (ast.MatchAs, ast.MatchStar)) and n.name:
+            self.locals.add(n.name)
+        if isinstance(n, ast.MatchMapping) and n.rest:
+            self.locals.add(n.rest)
         if isinstance(n, ast.Import):
             for al in n.names:
                 self.locals.add((al.asname or al.name).split('.')[0])
@@ -566,6 +570,7 @@ class Frame:
         self.yield_cb = None
         self.summary = None
         self.call_alts = {}       # id(call node) -> alternatives of the most recent call there
+        self.lookup_alts = {}     # id(lookup node) -> alternatives of a table lookup keyed by the head of a token list
         self.depth = 0
 
     def valid_tags(self):
@@ -1157,6 +1162,16 @@ class Interp:
                 self.assign(fr, st.targets[0], val, st)
                 out.next.append(s2)
             return
+        lalts = fr.lookup_alts.pop(id(st.value), None)
+        if lalts and len(st.targets) == 1 and isinstance(st.targets[0], ast.Name):
+            base = fr.store
+            for (val, heads, vname) in lalts:
+                s2 = base.copy()
+                fr.store = s2
+                self.assign(fr, st.targets[0], val, st)
+                self.apply_head_alt(s2, vname, heads)
+                out.next.append(s2)
+            return
         sym = self.sym_of(fr, st.value)
         for t in st.targets:
             self.assign(fr, t, v, st, sym=sym, value_expr=st.value)
@@ -1489,6 +1504,199 @@ class Interp:
                     continue
                 if new.atom[2] != r.atom[2] or r.atom[2] in ('*', '?'):
                     self.ev_relabel.setdefault((id(h), id(new.origin)), (fr.qual, h, new, r))
+
+    # -- structural pattern matching --------------------------------------------------------------------------------------------
+    def st_Match(self, fr, st, store, out):
+        subj = self.eval(fr, st.subject)
+        self.flush(fr, out, store)
+        sname = st.subject.id if isinstance(st.subject, ast.Name) and self.owner_frame(fr, st.subject.id) is fr else None
+        remaining = [fr.store]
+        for case in st.cases:
+            nxt = []
+            for s in remaining:
+                fr.store = s
+                sv = s.vars.get(sname, subj) if sname else subj
+                yes, no, binds = self.match_pattern(fr, case.pattern, sv)
+                if yes:
+                    s_m = s.copy() if no else s
+                    if sname:
+                        s_m.vars[sname] = yes
+                    for k, v in binds.items():
+                        fr.store = s_m
+                        self.bind(fr, k, v)
+                    if case.guard is not None:
+                        ct, s_t, cf, s_f = self.cond(fr, case.guard, s_m)
+                        self.flush(fr, out, s_m)
+                        if ct:
+                            o = self.exec_block(fr, case.body, [s_t])
+                            out.absorb(o, True)
+                        if cf:
+                            if sname:
+                                s_f.vars[sname] = sv
+                            nxt.append(s_f)
+                    else:
+                        o = self.exec_block(fr, case.body, [s_m])
+                        out.absorb(o, True)
+                if no:
+                    if sname:
+                        s.vars[sname] = no
+                    nxt.append(s)
+            remaining = merge_stores(nxt)
+            if not remaining:
+                break
+        out.next.extend(remaining)
+
+    def match_pattern(self, fr, pat, val):
+        """(part of the value that may match, part that may not, {name: value bound when it matches})"""
+        if isinstance(pat, ast.MatchAs):
+            if pat.pattern is None:
+                return val, BOT, ({pat.name: val} if pat.name else {})
+            yes, no, binds = self.match_pattern(fr, pat.pattern, val)
+            if pat.name and yes:
+                binds = dict(binds)
+                binds[pat.name] = yes
+            return yes, no, binds
+        if isinstance(pat, ast.MatchOr):
+            yes, binds = BOT, {}
+            no = val
+            for p in pat.patterns:
+                y, n, b = self.match_pattern(fr, p, no if no else val)
+                yes = join(yes, y)
+                no = n if no else BOT
+                for k, v in b.items():
+                    binds[k] = join(binds.get(k, BOT), v)
+            return yes, no, binds
+        if isinstance(pat, (ast.MatchValue, ast.MatchSingleton)):
+            if isinstance(pat, ast.MatchSingleton):
+                c = NONE if pat.value is None else const(pat.value)
+            else:
+                cv = self.eval(fr, pat.value)
+                if len(cv) != 1 or not (is_const(next(iter(cv))) or next(iter(cv)) == NONE):
+                    return val, val, {}
+                c = next(iter(cv))
+            yes, no = set(), set()
+            for a in val:
+                r = self.eq_atom(a, c, isinstance(pat, ast.MatchSingleton))
+                if r in ('t', '?'):
+                    yes.add(c if r == '?' and (is_str_atom(a) or is_int_atom(a) or a in (TOP, DATA)) else a)
+                if r in ('f', '?'):
+                    no.add(a)
+            return frozenset(yes), frozenset(no), {}
+        if isinstance(pat, ast.MatchSequence):
+            return self.match_sequence(fr, pat, val)
+        if isinstance(pat, ast.MatchClass):
+            names = self.class_names(fr, self.eval(fr, pat.cls), pat)
+            yes, no = self.partition_type(val, names)
+            if pat.patterns:
+                raise self.err(pat, 'positional sub-patterns of a class pattern are not modelled')
+            binds = {}
+            for attr, sp in zip(pat.kwd_attrs, pat.kwd_patterns):
+                av_ = self.load_attr(fr, yes, attr, pat)
+                y, n, b = self.match_pattern(fr, sp, av_)
+                if not y:
+                    return BOT, val, {}
+                if n:
+                    no = join(no, yes)
+                binds.update(b)
+            return yes, no, binds
+        raise self.err(pat, 'pattern {} is not modelled'.format(type(pat).__name__))
+
+    def match_sequence(self, fr, pat, val):
+        pats = pat.patterns
+        star = [i for i, p in enumerate(pats) if isinstance(p, ast.MatchStar)]
+        star = star[0] if star else None
+        n = len(pats)
+        yes, no = set(), set()
+        binds = {}
+
+        def sub(elems, rest):
+            """match the element patterns against per-position values; returns (may match, may fail)"""
+            may_fail = False
+            local = {}
+            k = 0
+            for i, p in enumerate(pats):
+                if isinstance(p, ast.MatchStar):
+                    if p.name:
+                        local[p.name] = rest
+                    continue
+                e = elems[k]
+                k += 1
+                if not e:
+                    return False, True, {}
+                y, nn, b = self.match_pattern(fr, p, e)
+                if not y:
+                    return False, True, {}
+                if nn:
+                    may_fail = True
+                local.update(b)
+            return True, may_fail, local
+        for a in val:
+            k = a[0]
+            if k == 'seq' and a[1] in ('list', 'tuple'):
+                es = a[2]
+                if (star is None and len(es) != n) or (star is not None and len(es) < n - 1):
+                    no.add(a)
+                    continue
+                if star is None:
+                    elems, rest = list(es), None
+                else:
+                    after = n - 1 - star
+                    elems = list(es[:star]) + list(es[len(es) - after:] if after else [])
+                    rest = av(('seq', 'list', tuple(es[star:len(es) - after])))
+                ok, mf, b = sub(elems, rest)
+            elif k == 'toks':
+                heads, cnt, sz = a[1], a[2], a[3]
+                if star is None:
+                    if cnt is not None and cnt != n:
+                        no.add(a)
+                        continue
+                    elems = [av(('tok', heads, i, i == n - 1, sz)) for i in range(n)]
+                    rest = None
+                    matched = ('toks', heads, n, sz)
+                    certain_len = cnt == n
+                else:
+                    if cnt is not None and cnt < n - 1:
+                        no.add(a)
+                        continue
+                    after = n - 1 - star
+                    elems = [av(('tok', heads, i, False, sz)) for i in range(star)] + [av(('tok', heads, None, j == after - 1, sz)) for j in range(after)]
+                    rest = av(('list', av(('tok', heads, None, None, sz))))
+                    matched = a
+                    certain_len = cnt is not None
+                ok, mf, b = sub(elems, rest)
+                if ok:
+                    yes.add(matched)
+                    for kk, vv in b.items():
+                        binds[kk] = join(binds.get(kk, BOT), vv)
+                if mf or not ok or not certain_len:
+                    no.add(a)
+                continue
+            elif k in ('list', 'lines'):
+                e = a[1] if k == 'list' else av(('str', 'u', ('elem', a)))
+                if not e and n - (1 if star is not None else 0) > 0:
+                    no.add(a)
+                    continue
+                cnt = n - (1 if star is not None else 0)
+                ok, mf, b = sub([e] * cnt, av(('list', e)))
+                mf = True
+            elif a == TOP:
+                yes.add(a)
+                no.add(a)
+                for p in pats:
+                    for nm in ast.walk(p):
+                        if isinstance(nm, (ast.MatchAs, ast.MatchStar)) and nm.name:
+                            binds[nm.name] = join(binds.get(nm.name, BOT), av(TOP))
+                continue
+            else:
+                no.add(a)       # strings, mappings, objects ... are not sequences for a sequence pattern
+                continue
+            if ok:
+                yes.add(a)
+                for kk, vv in b.items():
+                    binds[kk] = join(binds.get(kk, BOT), vv)
+            if mf or not ok:
+                no.add(a)
+        return frozenset(yes), frozenset(no), binds
 
     def st_With(self, fr, st, store, out):
         self.exec_with(fr, st, 0, store, out)
@@ -2569,8 +2777,55 @@ class Interp:
             return av(BOOL)
         return frozenset(out)
 
+    def dispatch_alts(self, fr, node, table, key_expr, default):
+        """TABLE[head] / TABLE.get(head) where head is the (lower-cased) first token of a token list held by a local name and
+        TABLE a known dict: one alternative per distinct value, each knowing which head keywords select it"""
+        self.fr_lookup_alts(fr).pop(id(node), None)
+        sym = self.sym_of(fr, key_expr)
+        if not (isinstance(sym, tuple) and sym and sym[0] == 'headof' and sym[2] == fr.fid):
+            return
+        if len(table) != 1:
+            return
+        a = next(iter(table))
+        if a[0] != 'kdict' or not a[1] or len(a[1]) > 400 or not all(k[1] == 'str' for k, _ in a[1]):
+            return
+        groups = {}
+        for k, v in a[1]:
+            groups.setdefault(v, set()).add(k[2])
+        if len(groups) + 1 > MAX_DISJUNCTS:
+            return
+        alts = [(v, frozenset(ks), sym[1]) for v, ks in groups.items()]
+        if default is not None:
+            alts.append((default, None, sym[1]))
+        fr.lookup_alts[id(node)] = alts
+
+    @staticmethod
+    def fr_lookup_alts(fr):
+        if not hasattr(fr, 'lookup_alts') or fr.lookup_alts is None:
+            fr.lookup_alts = {}
+        return fr.lookup_alts
+
+    def apply_head_alt(self, store, vname, heads):
+        if heads is None:
+            return
+        cur = store.vars.get(vname)
+        if cur is None:
+            return
+        new = set()
+        for a in cur:
+            if a[0] == 'toks':
+                new.add(('toks', heads, a[2], a[3]))
+            elif a[0] == 'seq' and a[2] and len(a[2][0]) == 1 and is_const(next(iter(a[2][0]))) and next(iter(a[2][0]))[1] == 'str':
+                if next(iter(a[2][0]))[2].lower() in heads:
+                    new.add(a)
+            else:
+                new.add(a)
+        store.vars[vname] = frozenset(new)
+
     def ex_Subscript(self, fr, node):
         v = self.eval(fr, node.value)
+        if not isinstance(node.slice, ast.Slice):
+            self.dispatch_alts(fr, node, v, node.slice, None)
         if isinstance(node.slice, ast.Slice):
             lo = self.eval(fr, node.slice.lower) if node.slice.lower is not None else None
             hi = self.eval(fr, node.slice.upper) if node.slice.upper is not None else None
@@ -3448,7 +3703,26 @@ class Interp:
         if isinstance(f, ast.Attribute):
             return self.method_call(fr, node)
         callee = self.eval(fr, f)
+        lalts = fr.lookup_alts.pop(id(f), None)
         out = BOT
+        if lalts:
+            # TABLE[head](...): every alternative is called with the token list narrowed to the heads that select it
+            base = fr.store
+            facts = None
+            for (val, heads, vname) in lalts:
+                s2 = base.copy()
+                fr.store = s2
+                self.apply_head_alt(s2, vname, heads)
+                try:
+                    for args in self.eval_args(fr, node):
+                        out = join(out, self.call_value(fr, val, args, node))
+                    facts = s2.facts if facts is None else (facts & s2.facts)
+                except Unreachable:
+                    pass
+            fr.store = base
+            if facts is not None:
+                base.facts = base.facts | facts
+            return out
         for args in self.eval_args(fr, node):
             out = join(out, self.call_value(fr, callee, args, node))
         return out
@@ -3464,6 +3738,15 @@ class Interp:
     def method_call(self, fr, node):
         f = node.func
         recv = self.eval(fr, f.value)
+        if f.attr == 'get' and 1 <= len(node.args) <= 2 and not node.keywords:
+            default = av(NONE)
+            if len(node.args) == 2:
+                try:
+                    default = self.eval(fr, node.args[1])
+                except Unreachable:
+                    default = None
+            if default is not None:
+                self.dispatch_alts(fr, node, recv, node.args[0], default)
         out = BOT
         for args in self.eval_args(fr, node):
             out = join(out, self.method_call1(fr, node, recv, args))
@@ -3669,7 +3952,8 @@ class Interp:
         facts_in = frozenset(f for f in fr.store.facts if self.fact_tags(f) <= tin)
         okfact = self.ok_fact(q, fnnode, bound, syms) if parent is None else None
         pfid = fnatom[2] if fnatom[0] == 'clo' else 0
-        key = (q, pfid, tuple(sorted(bound.items())), facts_in, tuple(sorted(syms.items())), fr.store.guards)
+        guards = fr.store.guards if not any(k[0] == q for k in self.active if isinstance(k, tuple)) else frozenset()
+        key = (q, pfid, tuple(sorted(bound.items())), facts_in, tuple(sorted(syms.items())), guards)
         is_ctor = any(isinstance(t, tuple) and t and t[0] == 'ctor' for t in tin)
         memo = not scope.mutates_free and not is_ctor
         summ = None
@@ -3758,7 +4042,7 @@ class Interp:
         callee = Frame(self, q, fnnode, parent, fid, self.defcls.get(id(fnnode)))
         callee.depth = fr.depth + 1
         self.frames[fid] = callee
-        callee.store = Store({k: self.brand(q, k, v) for k, v in bound.items()}, facts_in, fr.store.guards, dict(syms))
+        callee.store = Store({k: self.brand(q, k, v) for k, v in bound.items()}, facts_in, key[5], dict(syms))
         callee.tin = set(tin)
         callee.summary = Summary()
         if callee.defcls is not None and self_val is not None:
@@ -4092,6 +4376,8 @@ class Interp:
             return av(('range',))
         if name in ('sorted', 'reversed'):
             mode, elems = self.iteration(fr, x, node)
+            if mode == 'exact' and name == 'reversed':
+                return av(('seq', 'list', tuple(reversed(elems))))
             if mode == 'exact':
                 y = BOT
                 for e in elems:
@@ -4552,6 +4838,31 @@ class Interp:
                 else:
                     elem = join(elem, erase_tags(es))
             return av(('list', elem))
+        if name == 'collections.namedtuple' and len(pos) >= 2:
+            tn = [a for a in pos[0] if is_const(a) and a[1] == 'str']
+            fields = None
+            if len(pos[1]) == 1:
+                fa = next(iter(pos[1]))
+                if is_const(fa) and fa[1] == 'str':
+                    fields = fa[2].replace(',', ' ').split()
+                elif fa[0] == 'seq' and all(len(e) == 1 and is_const(next(iter(e))) for e in fa[2]):
+                    fields = [next(iter(e))[2] for e in fa[2]]
+            if len(tn) != 1 or fields is None:
+                raise self.err(node, 'namedtuple() with computed name / fields')
+            cname = tn[0][2]
+            if cname not in self.classes:
+                stub = ast.parse('class {}:\n    pass\n'.format(cname)).body[0]
+                ast.copy_location(stub, node)
+                stub._parent = getattr(node, '_parent', None)
+                ci = ClassInfo(cname, stub, [])
+                ci.record = 'namedtuple'
+                dv = args.kw.get('defaults')
+                ci.fields = [(f_, None, True) for f_ in fields]
+                if dv is not None:
+                    raise self.err(node, 'namedtuple() defaults are not modelled')
+                self.classes[cname] = ci
+                self.make_record_class(ci, 'namedtuple', stub)
+            return av(('cls', cname))
         if name in ('functools.wraps', 'functools.update_wrapper'):
             return av(('lib', '<identity>')) if name.endswith('wraps') else (x if x is not None else av(TOP))
         if name == '<identity>':
